@@ -230,6 +230,10 @@ func runProperty(res *Result, prop, tier string, seed uint64, driver, replay str
 		runC16(res)
 		return
 	}
+	if prop == "C20" {
+		runC20(res, tier, seed, driver)
+		return
+	}
 	if prop == "C17" {
 		runC17(res, tier, driver)
 		return
